@@ -235,7 +235,11 @@ func runBatch(cs *CheckSpec, b Batch, batchIdx int) *batchAgg {
 					cur, inRun = seed, true
 					// watchdog on the worker (harness condition, never a violation): a run
 					// that exceeds it is killed and reported as harness trouble (exit 2)
-					wd := time.AfterFunc(runWatchdog, func() {
+					wdDur := runWatchdog
+					if b.Opt.Params["preset"] == "mainnet" {
+						wdDur = 3 * runWatchdog // 32-slot epochs: one run is minutes of real BLS work on a loaded machine
+					}
+					wd := time.AfterFunc(wdDur, func() {
 						timedOut.Store(true)
 						cmd.Process.Kill()
 					})
@@ -264,7 +268,7 @@ func runBatch(cs *CheckSpec, b Batch, batchIdx int) *batchAgg {
 					// the worker died inside a run: attribute to the announced seed
 					r := &Result{Engine: b.Engine, Seed: cur}
 					if timedOut.Load() {
-						r.Harness = fmt.Sprintf("run exceeded the %v watchdog and was killed", runWatchdog)
+						r.Harness = fmt.Sprintf("run exceeded the watchdog (%v, three times that for the mainnet preset) and was killed", runWatchdog)
 						absorb(r)
 						continue
 					}
